@@ -358,8 +358,8 @@ class Sem:
         if want is None or x.op != "call":
             return []
         b = w.callee_body(x)
-        if b is None and want in ("Some", "Ok"):
-            # a library combinator tested in place (`if let Some(h) = read(..).ok().filter(|h| h.released)`)
+        if b is None and want in ("Some", "Ok", "true"):
+            # a library combinator tested in place (`if let Some(h) = read(..).ok().filter(|h| h.released)`, `if m.map_or(false, |x| ..)`)
             return [g for g in self.value_facts(x, want) if g != f]
         if b is None or not b.is_fn():
             return []
@@ -386,6 +386,17 @@ class Sem:
                 payload = w.ident(E("proj", (x.args[0],), "some"), expand_ws=False)
                 for g in true_facts(self, pb):
                     out.append(tuple(w.subst_params(t, pb, [None, payload], upvars=list(x.args[1].args)) if isinstance(t, E) else t for t in g))
+            return out
+        if want == "true" and nm in ("std::option::Option::map_or", "std::option::Option::is_some_and") and x.args[-1].op == "closure" and \
+                (nm.endswith("is_some_and") or (x.args[1].op == "const" and x.args[1].info[0] == "scalar" and not x.args[1].info[1])):
+            # `opt.map_or(false, |v| p(v))` / `opt.is_some_and(p)` is true: opt is Some and p holds for its payload
+            out = [("variant", x.args[0], "Some")] + self.value_facts(x.args[0], "Some", depth + 1)
+            pb = self.prog.bodies.get(x.args[-1].info)
+            if pb is not None:
+                from .iters import true_facts
+                payload = w.ident(E("proj", (x.args[0],), "some"), expand_ws=False)
+                for g in true_facts(self, pb):
+                    out.append(tuple(w.subst_params(t, pb, [None, payload], upvars=list(x.args[-1].args)) if isinstance(t, E) else t for t in g))
             return out
         if nm == "std::result::Result::ok" and want == "Some":
             return [("variant", x.args[0], "Ok")] + self.value_facts(x.args[0], "Ok", depth + 1)
@@ -464,7 +475,9 @@ class Sem:
                     elif a.op not in ("adt",) and not (a.op == "call" and a.info.endswith("from_residual")):
                         sites.append(None)   # an opaque result: nothing can be said
                 else:
-                    if not (a.op == "const" and a.info[0] == "scalar" and a.info[1] == 0):
+                    if a.op == "call" and w.callee_body(a) is None and a.info in ("std::option::Option::map_or", "std::option::Option::is_some_and"):
+                        sites.append(None)   # a combinator: what its being true implies (value_facts)
+                    elif not (a.op == "const" and a.info[0] == "scalar" and a.info[1] == 0):
                         sites.append(d.bb)
         if None in sites:
             # the result is an expression (combinators): what its being Some / Ok / true implies
